@@ -1,4 +1,5 @@
 import Mimium.Proofs.StateTreeApply
+import Mimium.Proofs.StateTreeMixed
 import Mimium.Model.StateTreeCheck
 /-!
 # C08 — State migration plans are well-formed and keep everything that survives
@@ -148,5 +149,246 @@ example :
     takeDiff o n = [⟨0, 1, 5⟩, ⟨7, 8, 1⟩] ∧ buildPlan o n ≠ none ∧ wellFormedB o n (takeDiff o n) = true := by
   decide +kernel
 
-end Mimium.StateTree
+/-! ### survivors — the classes on which the clause DOES hold for the pinned algorithm
 
+The full clause is refuted above.  What follows is proved for all layouts in the stated classes
+(`Proofs/StateTreeDp.lean` table = recurrence, `StateTreeLcs.lean` / `StateTreeChain.lean` what the backtracking loop
+achieves, `StateTreeSum.lean` bookkeeping, `StateTreeSurv.lean` classes `addOnly` / `removeOnly`, `StateTreeFlat.lean`
+distinct voices, `StateTreeMixed.lean` edit descriptions `Kept`, class `mixedOk`, boundary `survivorsMayFail`).
+
+FULL STATEMENT (false, see `C08_survivors_counterexample`):
+  `∀ o n, embeds o n = true → carried (takeDiff o n) = o.size`   and
+  `∀ o n, embeds n o = true → carried (takeDiff o n) = n.size`.
+PROVED (`…_partial`): the same conclusions
+ * with `embeds` replaced by the decidable classes `addOnly` / `removeOnly`: a pair is in the class if it is copied
+   whole, or has no words to carry, or at the `FnCall` node
+     (1) each old (new) child has the *same* score against all new (old) children it is similar to,
+     (2) the DP optimum equals the sum of these scores (= all old (new) children that are similar to anything can be
+         matched in order — the "only additions (removals)" hypothesis at this node),
+     (3) a child similar to nothing has no words, and (4) every similar child pair is again in the class;
+   identically shaped siblings are allowed (the clause's "up to exchange among identically shaped siblings");
+ * for `embeds` pairs inside the decidable class `mixedOk` (similar child pairs form a chain at every node, any scores);
+   on `mixedOk` also for edits that remove *and* add subtrees: every description `Kept o n k` is honoured.
+MISSING for the full statement: pairs with `embeds` outside these classes (`survivorsMayFail`): there the greedy `Common`
+choice either really loses words (both counterexamples are in it, `C08_survivors_counterexamples_in_boundary`) or keeps
+them only by the luck of the sibling order.  Measured (exhaustive, model only): all 2 346 `embeds` pairs among the
+147 456 pairs of layouts with ≤ 4 nodes over {M1,E1,E2,D1,D2,F[]} are inside `addOnly`; with old ≤ 5 nodes, new ≤ 7 nodes
+over {M1,M2}: 19 722 `embeds` pairs, 19 442 in the class, 128 lose words, 152 keep them by sibling order.
+-/
+
+/-- the list-built DP table of `lcs_by_score` is, cell by cell, the textbook recurrence `dpS` (best total score of an
+order preserving matching of the first `i` old with the first `j` new elements) -/
+theorem C08_dp_table_is_recurrence (n m : Nat) (score : Nat → Nat → Nat) (i j : Nat) (hi : i ≤ n) (hj : j ≤ m) :
+    dpGet (dpTable n m score) i j = dpS score i j ∧
+    dpS score 0 j = 0 ∧ dpS score i 0 = 0 ∧
+    dpS score (i+1) (j+1) =
+      (if score i j > 0 then max (dpS score i j + score i j) (max (dpS score i (j+1)) (dpS score (i+1) j))
+       else max (dpS score i (j+1)) (dpS score (i+1) j)) :=
+  ⟨dpGet_dpTable n m score i j hi hj, dpS_zero_left _ _, dpS_zero_right _ _, by rw [dpS_succ]; rfl⟩
+
+/-- *the greedy backtracking is optimal when no positive score is dominated*: if every positive score is maximal in
+its row and in its column (in particular for 0/1 scores: then the number of `Common` pairs is the length of a longest
+common subsequence), no order preserving matching `cm` has a larger total score than the `Common` pairs. -/
+theorem C08_lcs_maximal (n m : Nat) (s : Nat → Nat → Nat)
+    (hdom : ∀ i j, 0 < s i j → (∀ j', s i j' ≤ s i j) ∧ (∀ i', s i' j ≤ s i j))
+    (cm : List (Nat × Nat)) (hinc : IncFrom n m 0 0 cm) :
+    wsum s cm ≤ wsum s (commons (lcsByScore n m s)) := by
+  have h1 := backtrack_opt s (dpTable n m s) n m (fun i j hi hj => dpGet_dpTable n m s i j hi hj) hdom
+    (n+m) n m [] (Nat.le_refl _) (Nat.le_refl _) (Nat.le_refl _)
+  have h2 := dpS_ge_chain s n m cm 0 0 hinc (Nat.zero_le _) (Nat.zero_le _)
+  unfold lcsByScore
+  simp only [commons, wsum, dpS_zero_left] at h1 h2
+  omega
+
+/-- **only additions, any depth** (`addOnly`): every word of the old layout is carried — as a count and word by word
+(each old word is the source of a patch; by `C08_patches_match_shape` and `C08_order_preserving` it goes to a
+subtree of identical shape, in order). -/
+theorem C08_survivors_added_partial (o n : Sk) (h : addOnly o n = true) :
+    carried (takeDiff o n) = o.size ∧
+    ∀ w, w < o.size → ∃ p ∈ takeDiff o n, p.src ≤ w ∧ w < p.src + p.size := by
+  have hc := addOnly_carried o n h
+  have g := diff_good o n
+  refine ⟨hc, fun w hw => ?_⟩
+  exact covers_src (takeDiff o n) 0 o.size g.sorted (fun p hp => ⟨Nat.zero_le _, (g.within p hp).1⟩)
+    (Nat.zero_le _) (by simpa [takeDiff] using hc) w (Nat.zero_le _) hw
+
+/-- **only removals, any depth** (`removeOnly`): every word of the new layout is filled from the old one -/
+theorem C08_survivors_removed_partial (o n : Sk) (h : removeOnly o n = true) :
+    carried (takeDiff o n) = n.size ∧
+    ∀ w, w < n.size → ∃ p ∈ takeDiff o n, p.covers w := by
+  have hc := removeOnly_carried o n h
+  have g := diff_good o n
+  refine ⟨hc, fun w hw => ?_⟩
+  exact covers_dst (takeDiff o n) 0 n.size g.sorted (fun p hp => ⟨Nat.zero_le _, (g.within p hp).2⟩)
+    (Nat.zero_le _) (by simpa [takeDiff] using hc) w (Nat.zero_le _) hw
+
+/-- **distinct voices, children inserted**: if every pair of children either matches or shares nothing and the new
+child list is the old one with children inserted, every old child is copied whole by one patch. -/
+theorem C08_survivors_inserted_children (ocs ncs : List Sk) (hd : Distinct ocs ncs) (hs : ocs.Sublist ncs) :
+    carried (takeDiff (.fn ocs) (.fn ncs)) = sizeL ocs ∧
+    ∀ (i : Nat) (hi : i < ocs.length), ∃ p ∈ takeDiff (.fn ocs) (.fn ncs),
+      p.src ≤ offsetOf ocs i ∧ offsetOf ocs i + ocs[i].size ≤ p.src + p.size := by
+  unfold takeDiff
+  by_cases hm : (Sk.fn ocs).matches (.fn ncs) = true
+  · rw [diff_of_matches _ _ hm]
+    refine ⟨by simp, fun i hi => ⟨_, List.mem_cons_self, Nat.zero_le _, ?_⟩⟩
+    have := offsetOf_succ_le ocs i hi
+    simpa using this
+  · constructor
+    · refine level_added ocs ncs hm (fun _ => 1) ?_ ?_ ?_ ?_
+      · intro i j; rcases hd.score i j with h0 | ⟨h1, _⟩ <;> simp [*]
+      · rw [hd.full_of_sublist hs, sumTo_one]
+      · intro i j hi hj hpos
+        rcases hd.score i j with h0 | ⟨_, _, _, hmm⟩
+        · omega
+        · rw [diff_of_matches _ _ hmm]; simp
+      · intro i hi h; simp at h
+    · intro i hi
+      obtain ⟨j, hj⟩ := hd.rows_covered hs i hi
+      obtain ⟨_, hj', hmm⟩ := hd.common_matches (i, j) hj
+      exact ⟨_, patch_of_common ocs ncs hm i j hi hj' hmm hj, Nat.le_refl _, Nat.le_refl _⟩
+
+/-- **distinct voices, children deleted**: every new child is filled whole by one patch. -/
+theorem C08_survivors_deleted_children (ocs ncs : List Sk) (hd : Distinct ocs ncs) (hs : ncs.Sublist ocs) :
+    carried (takeDiff (.fn ocs) (.fn ncs)) = sizeL ncs ∧
+    ∀ (j : Nat) (hj : j < ncs.length), ∃ p ∈ takeDiff (.fn ocs) (.fn ncs),
+      p.dst ≤ offsetOf ncs j ∧ offsetOf ncs j + ncs[j].size ≤ p.dst + p.size := by
+  unfold takeDiff
+  by_cases hm : (Sk.fn ocs).matches (.fn ncs) = true
+  · rw [diff_of_matches _ _ hm]
+    have hsz := matches_size _ _ hm
+    simp only [size_fn] at hsz
+    refine ⟨by simpa using hsz, fun j hj => ⟨_, List.mem_cons_self, Nat.zero_le _, ?_⟩⟩
+    have := offsetOf_succ_le ncs j hj
+    simp only [size_fn]; omega
+  · constructor
+    · refine level_removed ocs ncs hm (fun _ => 1) ?_ ?_ ?_ ?_
+      · intro i j; rcases hd.score i j with h0 | ⟨h1, _⟩ <;> simp [*]
+      · rw [hd.full_of_sublist' hs, sumTo_one]
+      · intro i j hi hj hpos
+        rcases hd.score i j with h0 | ⟨_, _, _, hmm⟩
+        · omega
+        · rw [diff_of_matches _ _ hmm]; simpa using matches_size _ _ hmm
+      · intro j hj h; simp at h
+    · intro j hj
+      obtain ⟨i, hi⟩ := hd.cols_covered hs j hj
+      obtain ⟨hi', _, hmm⟩ := hd.common_matches (i, j) hi
+      refine ⟨_, patch_of_common ocs ncs hm i j hi' hj hmm hi, Nat.le_refl _, ?_⟩
+      have : ocs[i].size = ncs[j].size := matches_size _ _ hmm
+      show offsetOf ncs j + ncs[j].size ≤ offsetOf ncs j + ocs[i].size
+      omega
+
+/-- **distinct voices, children inserted and deleted**: the children the plan carries form a *longest* common
+subsequence of the old and the new child list (so at least as many children are carried as any description of the
+edit by "these children survived" names), and each of them is copied whole. -/
+theorem C08_survivors_mixed_children (ocs ncs : List Sk) (hd : Distinct ocs ncs)
+    (hnm : ¬ (Sk.fn ocs).matches (.fn ncs) = true) :
+    ∃ cm : List (Nat × Nat), IncFrom ocs.length ncs.length 0 0 cm ∧
+      (∀ p ∈ cm, ∃ (hi : p.1 < ocs.length) (hj : p.2 < ncs.length), ocs[p.1].matches ncs[p.2] = true ∧
+        (⟨offsetOf ocs p.1, offsetOf ncs p.2, ocs[p.1].size⟩ : Patch) ∈ takeDiff (.fn ocs) (.fn ncs)) ∧
+      ∀ cm' : List (Nat × Nat), IncFrom ocs.length ncs.length 0 0 cm' →
+        (∀ p ∈ cm', ∃ (hi : p.1 < ocs.length) (hj : p.2 < ncs.length), ocs[p.1].matches ncs[p.2] = true) →
+        cm'.length ≤ cm.length := by
+  refine ⟨nodeCommons ocs ncs, nodeCommons_inc ocs ncs, ?_, fun cm' h1 h2 => hd.commons_maximal cm' h1 h2⟩
+  intro p hp
+  obtain ⟨hi, hj, hmm⟩ := hd.common_matches p hp
+  exact ⟨hi, hj, hmm, patch_of_common ocs ncs hnm p.1 p.2 hi hj hmm hp⟩
+
+/-- **removed and added subtrees, any depth** (`mixedOk`: at every node that is not copied whole the similar child
+pairs form a chain — no child is similar to two children of the other side, no crossing — recursively): whatever
+description of the edit by removed and added subtrees one takes (`Kept o n k`: it keeps `k` words), the plan carries at
+least that many words.  With `embeds` this gives the clause itself on this class, in both directions. -/
+theorem C08_survivors_mixed_partial (o n : Sk) (h : mixedOk o n = true) :
+    (∀ k, Kept o n k → k ≤ carried (takeDiff o n)) ∧
+    (embeds o n = true → carried (takeDiff o n) = o.size) ∧
+    (embeds n o = true → carried (takeDiff o n) = n.size) := by
+  refine ⟨fun k hk => mixed_kept o n h k hk, fun he => ?_, fun he => ?_⟩
+  · have := mixed_kept o n h _ (kept_of_embeds o n he)
+    have := carried_le_old o n
+    unfold takeDiff; omega
+  · have := mixed_kept o n h _ (kept_of_embeds n o he).symm
+    have := carried_le_new o n
+    unfold takeDiff; omega
+
+/-- **boundary**: outside the decidable class `survivorsMayFail` the executable survivor judge accepts the plan -/
+theorem C08_survivors_outside_boundary (o n : Sk) (h : survivorsMayFail o n = false) :
+    survivorsB o n (takeDiff o n) = true := by
+  obtain ⟨h1, h2⟩ := survivors_of_not_mayFail o n h
+  simp only [survivorsB, Bool.and_eq_true, Bool.or_eq_true, Bool.not_eq_true', beq_iff_eq]
+  refine ⟨?_, ?_⟩
+  · by_cases he : embeds o n = true
+    · right; exact h1 he
+    · left; simpa using he
+  · by_cases he : embeds n o = true
+    · right; exact h2 he
+    · left; simpa using he
+
+/-- … and both refuting witnesses lie inside it (as do their mirror images for removal) -/
+theorem C08_survivors_counterexamples_in_boundary :
+    let o := Sk.fn [.fn [.mem 2, .mem 1]]
+    let n := Sk.fn [.fn [.mem 2, .mem 1], .fn [.mem 1, .mem 1]]
+    let A := Sk.fn [.mem 1, .feed 1]
+    let B := Sk.fn [.mem 1, .delay 3]
+    survivorsMayFail o n = true ∧ survivorsMayFail n o = true ∧
+    survivorsMayFail (.fn [A, B]) (.fn [A, B, A]) = true ∧ survivorsMayFail (.fn [A, B, A]) (.fn [A, B]) = true := by
+  decide +kernel
+
+/-! non-vacuity of the survivor theorems -/
+
+/-- a nested pair of the class `addOnly` that is not a whole copy, and its mirror image in `removeOnly` -/
+example :
+    let o := Sk.fn [.fn [.mem 1, .delay 2], .feed 2]
+    let n := Sk.fn [.mem 3, .fn [.mem 1, .mem 1, .delay 2], .feed 2, .fn [.feed 2]]
+    addOnly o n = true ∧ o.matches n = false ∧ removeOnly n o = true ∧
+      takeDiff o n = [⟨0, 4, 1⟩, ⟨1, 5, 4⟩, ⟨5, 9, 2⟩] ∧ o.size = 7 ∧ survivorsMayFail o n = false := by
+  decide +kernel
+
+/-- identically shaped siblings: `[V] → [V, V]` and `[V, V, W] → [V, W]` are in the classes -/
+example :
+    let V := Sk.fn [.mem 1, .feed 1]
+    let W := Sk.fn [.delay 2]
+    addOnly (.fn [V]) (.fn [V, V]) = true ∧ removeOnly (.fn [V, V, W]) (.fn [V, W]) = true := by
+  decide +kernel
+
+/-- distinct voices with an insertion at the front and a duplicate at the end -/
+example :
+    let A := Sk.fn [.mem 1, .feed 1]
+    let B := Sk.fn [.delay 3]
+    Distinct [A, B] [.mem 2, A, B, A] ∧ [A, B].Sublist [.mem 2, A, B, A] :=
+  ⟨by unfold Distinct; decide +kernel, .cons _ (.cons_cons _ (.cons_cons _ (.cons _ .slnil)))⟩
+
+/-- a mixed edit (one child removed, one added, one added inside a surviving child): in `mixedOk`, in neither of the
+one-directional classes; a description keeping 3 words exists and 3 words are carried -/
+example :
+    let o := Sk.fn [.mem 1, .fn [.mem 2, .feed 1]]
+    let n := Sk.fn [.fn [.mem 2, .delay 1, .feed 1], .feed 2]
+    mixedOk o n = true ∧ addOnly o n = false ∧ removeOnly o n = false ∧ Kept o n 3 ∧
+      carried (takeDiff o n) = 3 := by
+  refine ⟨by decide +kernel, by decide +kernel, by decide +kernel, ?_, by decide +kernel⟩
+  have inner : Kept (.fn [.mem 2, .feed 1]) (.fn [.mem 2, .delay 1, .feed 1]) 3 := by
+    have := Kept.node [.mem 2, .feed 1] [.mem 2, .delay 1, .feed 1] [(0, 0), (1, 2)]
+      (fun p => if p = (0, 0) then 2 else 1) (by simp [IncFrom]) (by
+        intro i j hi hj hm
+        simp only [List.mem_cons, Prod.mk.injEq, List.mem_nil_iff, or_false] at hm
+        rcases hm with ⟨rfl, rfl⟩ | ⟨rfl, rfl⟩
+        · have := Kept.whole (.mem 2) (.mem 2) (by decide)
+          simpa [Sk.size] using this
+        · have := Kept.whole (.feed 1) (.feed 1) (by decide)
+          simpa [Sk.size] using this)
+    simpa [psum] using this
+  have := Kept.node [.mem 1, .fn [.mem 2, .feed 1]] [.fn [.mem 2, .delay 1, .feed 1], .feed 2] [(1, 0)]
+    (fun _ => 3) (by simp [IncFrom]) (by
+      intro i j hi hj hm
+      simp only [List.mem_cons, Prod.mk.injEq, List.mem_nil_iff, or_false] at hm
+      obtain ⟨rfl, rfl⟩ := hm
+      simpa using inner)
+  simpa [psum] using this
+
+/-- `C08_lcs_maximal`: 0/1 scores satisfy the hypothesis -/
+example (s : Nat → Nat → Nat) (h : ∀ i j, s i j ≤ 1) :
+    ∀ i j, 0 < s i j → (∀ j', s i j' ≤ s i j) ∧ (∀ i', s i' j ≤ s i j) := by
+  intro i j hp
+  have := h i j
+  exact ⟨fun j' => by have := h i j'; omega, fun i' => by have := h i' j; omega⟩
+
+end Mimium.StateTree
